@@ -293,3 +293,22 @@ func HMAC(alg string, secret, msg []byte) []byte {
 	h.Write(msg)
 	return h.Sum(nil)
 }
+
+// ShortenMAC rewrites the TSIG record of a message so that it carries only
+// the first keep octets of its MAC (lengths adjusted, everything else as it
+// was): a forger's attempt at a truncated MAC.
+func ShortenMAC(b []byte, keep int) []byte {
+	t, m, ok := FindTSIG(b)
+	if !ok || t.Odd || keep >= len(t.MAC) || len(m.RRs) == 0 {
+		return b
+	}
+	rr := m.RRs[len(m.RRs)-1]
+	macStart := rr.RdStart + len(t.AlgRaw) + 10
+	cut := len(t.MAC) - keep
+	out := append([]byte(nil), b[:macStart+keep]...)
+	out = append(out, b[macStart+len(t.MAC):]...)
+	rdlen := rr.RdEnd - rr.RdStart - cut
+	binary.BigEndian.PutUint16(out[rr.RdStart-2:], uint16(rdlen))
+	binary.BigEndian.PutUint16(out[macStart-2:], uint16(keep))
+	return out
+}
